@@ -24,6 +24,8 @@ type Env struct {
 	// captured variables of a closure under contract: name -> pointer to the variable's cell (read in the state the
 	// expression is evaluated in, so old(x) is the entry value)
 	cells map[string]*Val
+	// frame of the enclosing function while evaluating inside old(): only for expressions whose TYPE is all that matters
+	typeFr *Frame
 }
 
 func (env *Env) with(st *State) *Env {
@@ -214,6 +216,9 @@ func (env *Env) eval(x Expr) (*Val, error) {
 		n := *env
 		n.st = env.old
 		n.fr = nil // the entry state knows parameters (their entry values) but no locals
+		if env.fr != nil {
+			n.typeFr = env.fr // ... except where only the TYPE of a local-typed expression is needed (keysAt)
+		}
 		return n.eval(x.X)
 	case *EUn:
 		v, err := env.eval(x.X)
@@ -1037,7 +1042,14 @@ func (env *Env) evalCall(x *ECall) (*Val, error) {
 			// keysAt(r, m): key set of the Go map object r, taken to be of the same map type as the map-typed expression m
 			// (for frame statements over every map of a type: forall r ref :: !fresh(r) ==> keysAt(r, m) == old(keysAt(r, m)))
 			if len(x.Args) == 2 {
-				m, err := env.eval(x.Args[1])
+				menv := env
+				if env.fr == nil && env.typeFr != nil {
+					// inside old(): the map expression only supplies the map type, locals may be named
+					c := *env
+					c.fr = env.typeFr
+					menv = &c
+				}
+				m, err := menv.eval(x.Args[1])
 				if err != nil {
 					return nil, err
 				}
